@@ -29,22 +29,26 @@ Proof.
   rewrite map_length, seq_length.
   set (mid := (Nat.min (s + c + 1) n - (s - c))%nat).
   set (X := map Some (seq (s - c) mid)).
-  destruct (w_guard (Z.of_nat s) (Z.of_nat c) (Z.of_nat n) (Z.of_nat mid)) eqn:G;
-  [ destruct (w_pre_cond (Z.of_nat s) (Z.of_nat c) (Z.of_nat n) (Z.of_nat mid)) eqn:P;
-    destruct (w_post_cond (Z.of_nat s) (Z.of_nat c) (Z.of_nat n) (Z.of_nat mid)) eqn:Q | ];
-  cbv beta zeta delta [w_guard w_pre_cond w_post_cond w_pre_len w_post_len] in *; unfold mid in *.
-  - replace (c - s)%nat with (Z.to_nat (Z.of_nat c - Z.of_nat s)) by lia.
-    replace (s + c + 1 - n)%nat with (Z.to_nat (Z.of_nat s + Z.of_nat c - Z.of_nat n + 1)) by lia.
-    rewrite <- app_assoc. reflexivity.
-  - replace (c - s)%nat with (Z.to_nat (Z.of_nat c - Z.of_nat s)) by lia.
-    replace (s + c + 1 - n)%nat with 0%nat by lia. cbn [repeat]. rewrite app_nil_r. reflexivity.
-  - replace (c - s)%nat with 0%nat by lia.
-    replace (s + c + 1 - n)%nat with (Z.to_nat (Z.of_nat s + Z.of_nat c - Z.of_nat n + 1)) by lia.
-    reflexivity.
-  - replace (c - s)%nat with 0%nat by lia. replace (s + c + 1 - n)%nat with 0%nat by lia.
-    cbn [repeat app]. rewrite app_nil_r. reflexivity.
-  - replace (c - s)%nat with 0%nat by lia. replace (s + c + 1 - n)%nat with 0%nat by lia.
-    cbn [repeat app]. rewrite app_nil_r. reflexivity.
+  (* what the regenerated tests and lengths have to satisfy, whatever their spelling *)
+  set (S := Z.of_nat s). set (C := Z.of_nat c). set (N := Z.of_nat n). set (M := Z.of_nat mid).
+  assert (Hmid : (mid = Nat.min (s + c + 1) n - (s - c))%nat) by reflexivity.
+  assert (Gf : w_guard S C N M = false -> (c - s = 0 /\ s + c + 1 - n = 0)%nat)
+    by (subst S C N M; cbv beta zeta delta [w_guard]; intros; lia).
+  assert (Pt : w_guard S C N M = true -> w_pre_cond S C N M = true -> Z.to_nat (w_pre_len S C N M) = (c - s)%nat)
+    by (subst S C N M; cbv beta zeta delta [w_guard w_pre_cond w_pre_len]; intros; lia).
+  assert (Pf : w_guard S C N M = true -> w_pre_cond S C N M = false -> (c - s = 0)%nat)
+    by (subst S C N M; cbv beta zeta delta [w_guard w_pre_cond]; intros; lia).
+  assert (Qt : w_guard S C N M = true -> w_post_cond S C N M = true -> Z.to_nat (w_post_len S C N M) = (s + c + 1 - n)%nat)
+    by (subst S C N M; cbv beta zeta delta [w_guard w_post_cond w_post_len]; intros; lia).
+  assert (Qf : w_guard S C N M = true -> w_post_cond S C N M = false -> (s + c + 1 - n = 0)%nat)
+    by (subst S C N M; cbv beta zeta delta [w_guard w_post_cond]; intros; lia).
+  destruct (w_guard S C N M) eqn:G;
+  [ destruct (w_pre_cond S C N M) eqn:P; destruct (w_post_cond S C N M) eqn:Q | ].
+  - rewrite (Pt eq_refl eq_refl), (Qt eq_refl eq_refl). rewrite <- app_assoc. reflexivity.
+  - rewrite (Pt eq_refl eq_refl), (Qf eq_refl eq_refl). cbn [repeat]. rewrite app_nil_r. reflexivity.
+  - rewrite (Qt eq_refl eq_refl), (Pf eq_refl eq_refl). reflexivity.
+  - rewrite (Pf eq_refl eq_refl), (Qf eq_refl eq_refl). cbn [repeat app]. rewrite app_nil_r. reflexivity.
+  - destruct (Gf eq_refl) as [E1 E2]. rewrite E1, E2. cbn [repeat app]. rewrite app_nil_r. reflexivity.
 Qed.
 
 Lemma cumsum_gen_eq sizes : forall acc, cumsum_gen (Z.of_nat acc) sizes = map Z.of_nat (cumsum_from acc sizes).
